@@ -18,6 +18,7 @@ import GocoinV.Proofs.C08_Ecmult
 import GocoinV.Proofs.C08_EcmultFull
 import GocoinV.Proofs.C08_Lift
 import GocoinV.Proofs.C08_Examples
+import GocoinV.Proofs.C08_Api
 
 namespace GocoinV.Props.C08
 open GocoinV.C08 GocoinV.Gen.Field5x52 GocoinV.Gen GocoinV.Proofs.C03
@@ -412,6 +413,148 @@ theorem split_exp_bound (a : Int) :
     -340282366920938463463374607431768211456 < (splitExp a).2 ∧ (splitExp a).2 < 340282366920938463463374607431768211456 :=
   splitExp_bound a
 
+/-! ### the byte-string API: BaseMultiply / BaseMultiplyAdd / Multiply (ec.go) with SetXYZ, GetPublicKey, ParsePubkey
+
+  `Model.GroupApi` mirrors the three functions as they are SINCE the `fix:` commit for the findings
+  api-basemultiply-identity / api-multiply-identity / api-basemultiplyadd-identity: `if r.Infinity { return false }`
+  between the multiplication (and AddXY) and SetXYZ + GetPublicKey. `ApiRes.refused` = the function returns false,
+  `.ok out` = true with `out` written, `.panic` = a Go panic. `apiRef Q unc` is what the reference point Q demands:
+  refused for ∞, otherwise 02/03 ‖ x (33-byte buffer) or 04 ‖ x ‖ y (65-byte buffer). -/
+
+/-- `GetB32` of canonical limbs is the 32-byte big-endian encoding of their value (both directions) -/
+theorem getB32_is_big_endian (a : Fe) (h : a.canon) : getB32 a = toB32 a.val ∧ GocoinV.C08.beVal (getB32 a) = a.val :=
+  ⟨getB32_eq_toB32 a h, beVal_getB32 a h⟩
+
+example : getB32 ⟨5, 6, 7, 8, 9⟩ = toB32 (Fe.val ⟨5, 6, 7, 8, 9⟩) := (getB32_is_big_endian _ (by decide)).1
+
+/-- `Field.InvVar` (Normalize, GetB32, big.Int.ModInverse — modelled by the reference `Secp.invMod` —, SetBytes) is
+    the inverse in F_p (0 ↦ 0) for EVERY input within Normalize's contract; the result has magnitude 1. -/
+theorem invVar_correct (a : Fe) (m : Nat) (ha : a.mag m) (hm : m ≤ 32) : FeS (invVar a) 1 (a.z)⁻¹ :=
+  invVar_S a m ha hm
+
+example : FeS (invVar (setInt 2)) 1 ((2 : Nat) : F)⁻¹ := by
+  have h := invVar_correct (setInt 2) 1 (FeS.ofInt 2 (by decide)).1 (by decide)
+  rwa [(FeS.ofInt 2 (by decide)).2] at h
+
+/-- `XY.SetXYZ` (Jacobian → affine) for EVERY operand within the contract: the result is an admissible affine
+    operand (both coordinates of magnitude 1), carries the Infinity flag over, and stands for the same point. -/
+theorem setXYZ_correct (a : XYZ) (ha : a.ok) :
+    (XY.ofXYZ a).ok ∧ (XY.ofXYZ a).inf = a.inf ∧ (XY.ofXYZ a).toPoint = a.toPoint := by
+  obtain ⟨sx, sy, si⟩ := ofXYZ_S a ha
+  refine ⟨⟨mag_mono sx.1 (by decide), mag_mono sy.1 (by decide)⟩, si, ?_⟩
+  unfold XY.toPoint XYZ.toPoint
+  rw [si, sx.2, sy.2]
+
+example : (XY.ofXYZ gJ).toPoint = Secp.G := by rw [(setXYZ_correct gJ gJ_Rp.1).2.2, gJ_toPoint]
+
+/-- `XY.GetPublicKey`: for coordinates of ANY magnitude ≤ 32 standing for the residues X, Y it writes 02/03 ‖ X (parity
+    of the canonical Y) resp. 04 ‖ X ‖ Y — the bytes depend on the residues only, never on the representation. -/
+theorem getPublicKey_correct (pk : XY) (mx my : Nat) (hx : pk.x.mag mx) (hy : pk.y.mag my) (hmx : mx ≤ 32) (hmy : my ≤ 32)
+    (unc : Bool) :
+    XY.getPublicKey pk unc =
+      (if unc then 4 :: (toB32 pk.x.z.val ++ toB32 pk.y.z.val)
+       else (if pk.y.z.val % 2 = 0 then 2 else 3) :: toB32 pk.x.z.val) :=
+  getPublicKey_S pk mx my _ _ (FeS.self hx) (FeS.self hy) hmx hmy unc
+
+example : XY.getPublicKey (preGXY 0) false = 2 :: toB32 CurveConsts.gx := by decide +kernel
+
+/-- The common tail of the three API functions (`if r.Infinity { return false }`, SetXYZ, GetPublicKey, `return true`)
+    on EVERY Jacobian point within the contract: it answers false exactly when r stands for the point at infinity and
+    otherwise true with the SEC1 bytes of the affine point r stands for. No stale coordinate is ever serialised. -/
+theorem api_tail_correct (r : XYZ) (hr : r.ok) (unc : Bool) : apiFinish r unc = apiRef r.toPoint unc :=
+  apiFinish_spec r hr unc
+
+example : apiFinish infJ false = .refused ∧ apiFinish gJ false = .ok (2 :: toB32 CurveConsts.gx) := by decide +kernel
+
+/-- `BaseMultiply(k, out)` for EVERY scalar byte string (k = its big-endian value, any length; `ECmultGen` reads the
+    low 256 bits): false when (k mod 2²⁵⁶)·G = ∞, otherwise true with the SEC1 bytes of (k mod 2²⁵⁶)·G. UNCONDITIONAL. -/
+theorem baseMultiply_correct (k : Nat) (unc : Bool) :
+    baseMultiply k unc = apiRef (Secp.mul (k % 2 ^ 256) Secp.G) unc := baseMultiply_spec k unc
+
+/-- … and the refusals are exactly the scalars ≡ 0 mod n (after the cut to 256 bits): 0, n, 2²⁵⁶, 2²⁵⁶ + n, …
+    (the former finding api-basemultiply-identity: `true` with the bytes 034f355b…71aa for 0 and n). -/
+theorem baseMultiply_refuses_iff (k : Nat) (unc : Bool) :
+    baseMultiply k unc = .refused ↔ (k % 2 ^ 256) % CurveConsts.order = 0 := by
+  rw [baseMultiply_correct, apiRef_refused_iff]
+  exact mul_G_none_iff' _
+
+/-- the witnesses of the former finding, through the theorem and — for 0 and 1 — by kernel evaluation of the model -/
+example : baseMultiply 0 false = .refused ∧ baseMultiply CurveConsts.order false = .refused ∧
+    baseMultiply (2 ^ 256) true = .refused ∧ baseMultiply (2 ^ 256 + CurveConsts.order) false = .refused ∧
+    baseMultiply 1 false ≠ .refused :=
+  ⟨(baseMultiply_refuses_iff _ _).2 (by decide), (baseMultiply_refuses_iff _ _).2 (by decide),
+   (baseMultiply_refuses_iff _ _).2 (by decide), (baseMultiply_refuses_iff _ _).2 (by decide),
+   fun h => absurd ((baseMultiply_refuses_iff _ _).1 h) (by decide)⟩
+example : baseMultiply 0 false = .refused ∧ baseMultiply 1 false = .ok (2 :: toB32 CurveConsts.gx) := by decide +kernel
+
+/-- Whatever `XY.ParsePubkey` accepts (33 bytes 02/03 ‖ x, or 65 bytes 04/06/07 ‖ x ‖ y) is an admissible affine operand,
+    finite, ON THE CURVE, with canonical x = the big-endian value of bytes 1..32, and that value is below p
+    (non-canonical encodings x ≥ p are refused). -/
+theorem parsePubkey_sound (xy : List Nat) (hb : ∀ b ∈ xy, b < 256) (pk : XY) (h : XY.parsePubkey xy = some pk) :
+    pk.ok ∧ pk.inf = false ∧ OnC pk.toPoint ∧ pk.x.canon ∧ pk.x.val = GocoinV.C08.beVal ((xy.drop 1).take 32) ∧
+      GocoinV.C08.beVal ((xy.drop 1).take 32) < P := parsePubkey_ok xy hb pk h
+
+example : ∃ pk, XY.parsePubkey gBytes = some pk ∧ pk.toPoint = Secp.G := ⟨_, parse_G, preGXY0_RpA.2⟩
+/-- x = p + 1 (a non-canonical encoding of x = 1) and a 33-byte string with tag 04 are refused -/
+example : XY.parsePubkey (2 :: toB32 (P + 1)) = none ∧ XY.parsePubkey (4 :: toB32 1) = none := by decide +kernel
+
+/-- `BaseMultiplyAdd(xy, k, out)`: false when xy does not parse; for a key that parses to pk: false when
+    (k mod 2²⁵⁶)·G + pk = ∞ (the former finding api-basemultiplyadd-identity: `true` with the bytes of −G for
+    (G, n−1)), otherwise true with the SEC1 bytes of that sum. For EVERY byte string xy and every scalar. -/
+theorem baseMultiplyAdd_correct (xy : List Nat) (hb : ∀ b ∈ xy, b < 256) (k : Nat) (unc : Bool) :
+    (XY.parsePubkey xy = none → baseMultiplyAdd xy k unc = .refused) ∧
+    (∀ pk, XY.parsePubkey xy = some pk →
+      baseMultiplyAdd xy k unc = apiRef (Secp.add (Secp.mul (k % 2 ^ 256) Secp.G) pk.toPoint) unc) :=
+  ⟨baseMultiplyAdd_none xy k unc, fun pk hp => baseMultiplyAdd_spec xy hb k unc pk hp⟩
+
+/-- at the operand G (02 ‖ Gx): BaseMultiplyAdd(G, k) answers for (k mod 2²⁵⁶ + 1)·G, and refuses exactly when
+    k mod 2²⁵⁶ + 1 ≡ 0 mod n — the witness (G, n−1) of the former finding included -/
+theorem baseMultiplyAdd_at_G (k : Nat) (unc : Bool) :
+    baseMultiplyAdd gBytes k unc = apiRef (Secp.mul (k % 2 ^ 256 + 1) Secp.G) unc ∧
+    (baseMultiplyAdd gBytes k unc = .refused ↔ (k % 2 ^ 256 + 1) % CurveConsts.order = 0) := by
+  refine ⟨baseMultiplyAdd_G k unc, ?_⟩
+  rw [baseMultiplyAdd_G, apiRef_refused_iff]
+  exact mul_G_none_iff' _
+
+example : baseMultiplyAdd gBytes (CurveConsts.order - 1) false = .refused ∧ baseMultiplyAdd gBytes 0 false ≠ .refused :=
+  ⟨(baseMultiplyAdd_at_G _ _).2.2 (by decide), fun h => absurd ((baseMultiplyAdd_at_G _ _).2.1 h) (by decide)⟩
+
+/-- `Multiply(xy, k, out)`, PARTIAL in the same sense as `ecmult_correct_partial`: for a key that parses to pk, under
+    the two consequences of #E(F_p) = n for that point stated as hypotheses (n·A = 0; mul_lambda(A) = λ·A), the call
+    never panics, answers false when k·pk = ∞ (the former finding api-multiply-identity: `true` with the operand's own
+    bytes for k = 0, n) and otherwise true with the SEC1 bytes of k·pk — for every scalar k (any byte length).
+    A key that does not parse is refused without any hypothesis. -/
+theorem multiply_correct_partial (xy : List Nat) (hb : ∀ b ∈ xy, b < 256) (k : Nat) (unc : Bool) :
+    (XY.parsePubkey xy = none → multiply xy k unc = .refused) ∧
+    (∀ pk (_ : XY.parsePubkey xy = some pk) (hA : OnC (XYZ.ofXY pk).toPoint),
+      ((CurveConsts.order : Nat) : Int) • mkPt (XYZ.ofXY pk).toPoint hA = 0 →
+      (∀ A' : CurvePt, Rp (XYZ.mulLambda (XYZ.ofXY pk)) A' →
+        A' = ((CurveConsts.lambda : Nat) : Int) • mkPt (XYZ.ofXY pk).toPoint hA) →
+      multiply xy k unc = apiRef (Secp.mul k pk.toPoint) unc) :=
+  ⟨multiply_none xy k unc, fun pk hp hA hn hl => multiply_spec xy hb k unc pk hp hA hn hl⟩
+
+/-- the hypotheses of `multiply_correct_partial` are satisfiable: the key 02 ‖ Gx parses to pre_g[0], for which both
+    facts are theorems (`gJ_order`, `gJ_lambda`) -/
+example : ∃ pk, XY.parsePubkey gBytes = some pk ∧ ∃ hA : OnC (XYZ.ofXY pk).toPoint,
+    ((CurveConsts.order : Nat) : Int) • mkPt (XYZ.ofXY pk).toPoint hA = 0 ∧
+    (∀ A' : CurvePt, Rp (XYZ.mulLambda (XYZ.ofXY pk)) A' →
+      A' = ((CurveConsts.lambda : Nat) : Int) • mkPt (XYZ.ofXY pk).toPoint hA) :=
+  ⟨preGXY 0, parse_G, gJ_onC, gJ_order, gJ_lambda⟩
+
+/-- … and at the operand G with NO hypothesis left: Multiply(G, k) answers for k·G for every k, and refuses exactly
+    the multiples of n (0, n, 2n, … of any byte length) -/
+theorem multiply_at_G (k : Nat) (unc : Bool) :
+    multiply gBytes k unc = apiRef (Secp.mul k Secp.G) unc ∧
+    (multiply gBytes k unc = .refused ↔ k % CurveConsts.order = 0) := by
+  refine ⟨multiply_G k unc, ?_⟩
+  rw [multiply_G, apiRef_refused_iff]
+  exact mul_G_none_iff' _
+
+example : multiply gBytes 0 false = .refused ∧ multiply gBytes CurveConsts.order false = .refused ∧
+    multiply gBytes (3 * CurveConsts.order) true = .refused ∧ multiply gBytes 1 false ≠ .refused :=
+  ⟨(multiply_at_G _ _).2.2 (by decide), (multiply_at_G _ _).2.2 (by decide), (multiply_at_G _ _).2.2 (by decide),
+   fun h => absurd ((multiply_at_G _ _).2.1 h) (by decide)⟩
+
 /-
   OPEN (covered by the differential run only — go/cmd/c08 compares the hand group model limb-for-limb with the
   Go code and evaluates the statements on the real code against math/big):
@@ -421,8 +564,10 @@ theorem split_exp_bound (a : Int) :
   --   from #E(F_p) = n, which is not proved (explicit hypothesis by design). At A = G both are discharged
   --   (`ecmult_correct_at_G`: n·G = ∞ is C03's generator_order, mul_lambda(G) = λ·G one kernel evaluation); for a
   --   general A = k·G the second one would need "the endomorphism is additive", which is not proved either.
-  -- OPEN: XY.SetXYZ / GetPublicKey (Field.InvVar = big.Int.ModInverse, modelled by Secp.invMod; byte-level glue
-  --   beVal ∘ getB32 ∘ normalize not proved), mulLambda.
+  -- OPEN: multiply_correct without hypotheses on the operand (same two facts as ecmult_correct; discharged at G:
+  --   `multiply_at_G`). `big.Int.ModInverse` inside Field.InvVar is MODELLED by the reference `Secp.invMod` (Fermat),
+  --   tied by the oracle op `invvar`; the parity clause of ParsePubkey (02 ↦ even y, 03 ↦ odd y) is `setXO_correct`'s,
+  --   not restated in `parsePubkey_sound`.
   -- OPEN (input contract wider than the theorem): `XYZ.AddXY` only normalises a.Y, so the Go code also admits a.Y of
   --   magnitude 9..32 there; `addXY_correct` is stated for a.Y ≤ 8 (then the result, which may be a copy of `a`,
   --   is again an admissible operand). Neg and Double are stated for Y ≤ 32 (`neg_correct`, `double_correct_full`);
